@@ -112,6 +112,9 @@ type verifDCConfig struct {
 	Sync, Finalize  hooks.Hook // default: disabled stub
 	Customize       hooks.Hook // nil: the controller has no customize hook
 	HooksViaService bool       // the webhooks are given as a service reference + path instead of a url
+	// KeepConstructorInformers: do not swap snapshot listers in; the harness fills
+	// the stub informers the REAL constructor subscribed to (stub.Stubs(), by GVR)
+	KeepConstructorInformers bool
 }
 
 type verifDC struct {
@@ -194,7 +197,9 @@ func verifNewDC(w *env.World, cfg verifDCConfig) *verifDC {
 	}
 	c.queue = q
 	d := &verifDC{decoratorController: c, W: w, Queue: q, Recorder: rec, Cfg: cfg}
-	d.Snapshot(nil, nil)
+	if !cfg.KeepConstructorInformers {
+		d.Snapshot(nil, nil)
+	}
 	return d
 }
 
